@@ -13,7 +13,8 @@ class LeafSum:
     """plain-data summary of one path"""
     __slots__ = ("op", "can_emit", "pre", "base_open", "bound_hit", "post", "flags", "version", "memo_n0", "memo_events",
                  "events", "writes", "panics", "end", "ret", "atoms", "src_mode", "mutators_empty", "script",
-                 "proto_emitted_pre", "proto_emitted_post", "out_marks", "steps", "unsafe_mode", "popped", "config_changes")
+                 "proto_emitted_pre", "proto_emitted_post", "out_marks", "steps", "unsafe_mode", "popped", "config_changes",
+                 "extra_read", "extra_changed")
 
     def describe(self):
         pre = ["|".join(sorted(c["kinds"])) if len(c["kinds"]) <= 4 else "*(%d)" % len(c["kinds"]) for c in self.pre]
@@ -75,6 +76,8 @@ def summarise(ctx, op, run, I, h, can, ret, end, unsafe_mode):
         s.proto_emitted_post = "unchanged"
     s.steps = run.steps
     s.config_changes = h.config_changes()
+    s.extra_read = ["state." + n for n in h.extra_scratch_read_at_entry(s.atoms, s.writes)] + h.extra_gen_read_at_entry(s.atoms, s.writes)
+    s.extra_changed = h.extra_state_changed() + h.extra_gen_changed()
     s.popped = [e[1].id for e in run.events if e[0] == "pop"]
     return s
 
